@@ -215,10 +215,12 @@ def tilt_unit(prog):
 
 
 # ------------------------------------------------------------------------------------------ COUNT
+# minimum number of sample loops per batch routine (a pin against vacuous passes).  Routines whose two sensor arms run the SAME per-sample code (EKF.update with
+# or without mag, the complementary blend on two or three columns) may serve both from one loop, so their pin is 1.
 BATCH = [
-    ("madgwick.py::Madgwick._compute_all", 2), ("mahony.py::Mahony._compute_all", 2), ("ekf.py::EKF._compute_all", 2),
+    ("madgwick.py::Madgwick._compute_all", 2), ("mahony.py::Mahony._compute_all", 2), ("ekf.py::EKF._compute_all", 1),
     ("ukf.py::UKF._compute_all", 1), ("aqua.py::AQUA._compute_all", 4), ("fourati.py::Fourati._compute_all", 1),
-    ("roleq.py::ROLEQ._compute_all", 1), ("fkf.py::FKF._compute_all", 1), ("complementary.py::Complementary._compute_all", 2),
+    ("roleq.py::ROLEQ._compute_all", 1), ("fkf.py::FKF._compute_all", 1), ("complementary.py::Complementary._compute_all", 1),
     ("angular.py::AngularRate._compute_all", 1), ("triad.py::TRIAD._compute_all", 1),
     ("famc.py::FAMC._compute_all", 1), ("fqa.py::FQA._compute_all", 2), ("quest.py::QUEST._compute_all", 1),
     ("davenport.py::Davenport._compute_all", 1), ("flae.py::FLAE._compute_all", 1), ("oleq.py::OLEQ._compute_all", 1),
